@@ -104,7 +104,7 @@ PROPS["C18"] = dict(
                "the end segments, the result is that segment's straight line; table value at a node), wmedian (index safety, "
                "termination condition, and at the return: the result is the value at the first sorted position whose cumulative "
                "weight reaches half the total) and the 1-d wmom (mean, both error estimates, deviation, supplied mean, shape error) "
-               "and the unweighted sigma_clip (the mean, deviation and error returned are those of exactly the reported subset, "
+               "and sigma_clip, unweighted and with positive weights (the mean, deviation and error returned are those of exactly the reported subset, "
                "which is a non-empty increasing selection of positions of the input; the clipping rule itself is bounded) "
                "are verified for all inputs over the reals. sigma_clip, get_stats, N-by-d wmom and the cov/cor round trip are "
                "compared, bounded and labelled, with direct evaluation of the statement.",
